@@ -76,7 +76,7 @@ _OWN_EVENT = {
     'cmp': ('C02',), 'kset': ('C03',), 'kbin': ('C03',), 'knot': ('C03',), 'kins': ('C03',), 'kobs': ('C03',),
     'blend': ('C03', 'C07'), 'keep': ('C03', 'C07'), 'clear': ('C03', 'C07'), 'negate': ('C03', 'C07'), 'fsel': ('C03', 'C07'),
     'set_bits': ('C03', 'C07'), 'b2v': ('C03', 'C17'), 'fb2v': ('C03', 'C17'), 'nz': ('C03', 'C17'), 'fnz': ('C03', 'C17'),
-    'shift': ('C04',), 'shiftv': ('C04',), 'fpred': ('C13',),
+    'shift': ('C04',), 'shiftv': ('C04',), 'fpred': ('C13',), 'div': ('C05',),
     'insert': ('C08',), 'extract': ('C08',), 'load': ('C08', 'C09'), 'store': ('C08', 'C09'), 'gather': ('C08', 'C09'), 'scatter': ('C08', 'C09'),
 }
 
@@ -314,6 +314,7 @@ def c05(ctx):
         ctx.mc('MC_IntLane', mc_cfg(['L = 1', 'Dom <- Lat8'], ['C05u'], 'InDom', 'View'), 'il8u', workers=8)
     def conf():
         runner.lane_facts(ctx, 'drv_int.cpp', 'div', INT_GROUPS)
+        prog_traces(ctx)            # division of computed operands (zero lanes included) inside the register programs
         if ctx.tier == 'thorough':
             ctx.assumptions.append('thorough: all 2^32 operand pairs of the 16-bit types swept natively against the C++ operators in every configuration; disagreements (and only those) are judged by TLC')
             runner.lane_facts(ctx, 'drv_int.cpp', 'sweep16_div', [16])
